@@ -388,30 +388,22 @@ func checkC18(c *Ctx, w *World) {
 			if fn == nil {
 				continue
 			}
-			good := false
-			eachInstr(fn, func(in ssa.Instruction) {
-				call, ok := staticCallNamed(valueOf(in), "fmt.Sprintf")
-				if !ok {
-					return
+			// symbolic template of the returned string (Sprintf with %s/%v, concatenation, other builders of the same
+			// receiver are expanded), compared with the expected literal segments and fields
+			want := spec.format
+			for _, fld := range spec.fields {
+				want = strings.Replace(want, "%s", "{"+fld+"}", 1)
+			}
+			good := true
+			nret := 0
+			for _, r := range returnsOf(fn) {
+				nret++
+				got, ok := strTemplate(p, r.Results[0], fn.Params[0], 0)
+				if !ok || got != want {
+					good = false
 				}
-				f, _ := constString(call.Call.Args[0])
-				args := variadicArgs(call.Call.Args[1])
-				if f != spec.format || len(args) != len(spec.fields) {
-					return
-				}
-				good = true
-				for i, a := range args {
-					fld, base, isL := loadedField(a)
-					if !isL || fld != spec.fields[i] || base != ssa.Value(fn.Params[0]) {
-						good = false
-					}
-				}
-				for _, r := range returnsOf(fn) {
-					if r.Results[0] != ssa.Value(call) {
-						good = false
-					}
-				}
-			})
+			}
+			good = good && nret > 0
 			c.check(good, "C18.uri", name, p.pos(fn.Pos()), fmt.Sprintf("returns Sprintf(%q, %s)", spec.format, strings.Join(spec.fields, ", ")), "resource name is not built from exactly the validated option fields with the expected literal segments")
 		}
 		// no other place formats resource paths
@@ -796,4 +788,103 @@ func safeNamePattern(pat string) (bool, string) {
 func isFloat(t types.Type) bool {
 	b, ok := t.Underlying().(*types.Basic)
 	return ok && b.Info()&types.IsFloat != 0
+}
+
+// strTemplate: the string value v as a template over the fields of recv: literals verbatim, a field load as
+// "{Type.Field}". Understands constants, fmt.Sprintf with only %s / %v verbs, string concatenation, phis whose edges
+// agree, and calls of other one-receiver methods/functions of the module on the same receiver (expanded).
+func strTemplate(p *Prog, v ssa.Value, recv ssa.Value, depth int) (string, bool) {
+	if depth > 6 {
+		return "", false
+	}
+	v = stripConv(v)
+	if s, ok := constString(v); ok {
+		return s, true
+	}
+	if fld, base, ok := loadedField(v); ok {
+		if stripConv(base) == recv || originsAll(base, func(o Origin) bool { return o.Val == recv }) {
+			return "{" + fld + "}", true
+		}
+		return "", false
+	}
+	switch x := v.(type) {
+	case *ssa.BinOp:
+		if x.Op == token.ADD {
+			a, ok1 := strTemplate(p, x.X, recv, depth+1)
+			b, ok2 := strTemplate(p, x.Y, recv, depth+1)
+			return a + b, ok1 && ok2
+		}
+	case *ssa.Phi:
+		out := ""
+		for i, e := range x.Edges {
+			t, ok := strTemplate(p, e, recv, depth+1)
+			if !ok || (i > 0 && t != out) {
+				return "", false
+			}
+			out = t
+		}
+		return out, len(x.Edges) > 0
+	case *ssa.UnOp:
+		// load of a local cell assigned once
+		if al, ok := x.X.(*ssa.Alloc); ok {
+			sts := storesTo(al)
+			if len(sts) == 1 {
+				return strTemplate(p, sts[0].Val, recv, depth+1)
+			}
+		}
+	case *ssa.Call:
+		if call, ok := staticCallNamed(x, "fmt.Sprintf"); ok {
+			format, isS := constString(call.Call.Args[0])
+			if !isS {
+				return "", false
+			}
+			args := variadicArgs(call.Call.Args[1])
+			out, ai := "", 0
+			for i := 0; i < len(format); i++ {
+				if format[i] != '%' {
+					out += string(format[i])
+					continue
+				}
+				if i+1 >= len(format) {
+					return "", false
+				}
+				i++
+				switch format[i] {
+				case '%':
+					out += "%"
+				case 's', 'v':
+					if ai >= len(args) {
+						return "", false
+					}
+					if _, isStr := stripConv(args[ai]).Type().Underlying().(*types.Basic); !isStr {
+						return "", false
+					}
+					t, ok := strTemplate(p, args[ai], recv, depth+1)
+					if !ok {
+						return "", false
+					}
+					out += t
+					ai++
+				default:
+					return "", false
+				}
+			}
+			return out, ai == len(args)
+		}
+		if callee := calleeOf(&x.Call).Static; callee != nil && callee.Blocks != nil && len(callee.Params) == 1 && len(x.Call.Args) == 1 {
+			if a := stripConv(x.Call.Args[0]); a == recv || originsAll(a, func(o Origin) bool { return o.Val == recv }) {
+				out, n := "", 0
+				for _, r := range returnsOf(callee) {
+					t, ok := strTemplate(p, r.Results[0], callee.Params[0], depth+1)
+					if !ok || (n > 0 && t != out) {
+						return "", false
+					}
+					out = t
+					n++
+				}
+				return out, n > 0
+			}
+		}
+	}
+	return "", false
 }
